@@ -10,6 +10,7 @@
 mod build;
 mod exact;
 mod gen;
+mod model;
 mod monitor;
 mod props;
 mod rng;
@@ -269,6 +270,7 @@ struct Merged {
     fingerprints: HashSet<u64>,
     facets: BTreeMap<String, u64>,
     observations: BTreeMap<String, u64>,
+    distinct: BTreeMap<String, HashSet<u64>>,
     samples: Vec<Value>,
     violations: Vec<(u64, String, String)>,
 }
@@ -287,6 +289,16 @@ fn merge_result(dir: &Path, suffix: &str, mg: &mut Merged) -> bool {
         if let Some(o) = v[name].as_object() {
             for (k, n) in o {
                 *target.entry(k.clone()).or_insert(0) += n.as_u64().unwrap_or(0);
+            }
+        }
+    }
+    if let Some(o) = v["distinct"].as_object() {
+        for (k, a) in o {
+            let set = mg.distinct.entry(k.clone()).or_default();
+            for x in a.as_array().into_iter().flatten() {
+                if let Some(n) = x.as_u64() {
+                    set.insert(n);
+                }
             }
         }
     }
@@ -362,6 +374,7 @@ fn orchestrate(m: &HashMap<String, String>) -> i32 {
         fingerprints: HashSet::new(),
         facets: BTreeMap::new(),
         observations: BTreeMap::new(),
+        distinct: BTreeMap::new(),
         samples: vec![],
         violations: vec![],
     };
@@ -526,6 +539,7 @@ fn orchestrate(m: &HashMap<String, String>) -> i32 {
         "facets": mg.facets,
         "observations_not_judged": mg.observations,
         "hook_events_observed": mg.hook_events,
+        "distinct_sets": mg.distinct.iter().map(|(k, v)| (k.clone(), v.len())).collect::<BTreeMap<_, _>>(),
         "workers": nshards,
         "known_findings_hit": known_hits,
         "violation_signatures": violation_summaries,
